@@ -24,9 +24,10 @@ AutoCorrelationTransitionMatrix::AutoCorrelationTransitionMatrix(std::shared_ptr
     addParameter_(new Parameter(prefix + "lambda" + TextTools::toString(i + 1), p, Parameter::PROP_CONSTRAINT_EX));
   }
 
+  // All autocorrelations are equal: the stationary distribution is uniform.
   for (size_t i = 0; i < size; ++i)
   {
-    eqFreq_[i] = p;
+    eqFreq_[i] = 1. / static_cast<double>(size);
   }
 }
 
@@ -77,6 +78,18 @@ void AutoCorrelationTransitionMatrix::fireParameterChanged(const ParameterList& 
   for (size_t i = 0; i < salph; i++)
   {
     vAutocorrel_[i] = getParameterValue("lambda" + TextTools::toString(i + 1));
+  }
+
+  // Stationary distribution: proportional to the mean sojourn times 1 / (1 - lambda_i).
+  double sum = 0;
+  for (size_t i = 0; i < salph; i++)
+  {
+    eqFreq_[i] = 1. / (1. - vAutocorrel_[i]);
+    sum += eqFreq_[i];
+  }
+  for (size_t i = 0; i < salph; i++)
+  {
+    eqFreq_[i] /= sum;
   }
 
   upToDate_ = false;
